@@ -213,6 +213,35 @@ class Typer:
     def __init__(self, model):
         self.m = model
         self._inf = {}
+        self._param_consts = None
+
+    def param_string_constants(self):
+        """{(function qname, parameter): set of string constants passed at every call site} for parameters that only
+        ever receive string literals (used to resolve `getattr(obj, method_name)(...)` in a helper)"""
+        if self._param_consts is not None:
+            return self._param_consts
+        M = self.m
+        by_name = collections.defaultdict(list)
+        for q, fn in M.funcs.items():
+            by_name[fn.name].append(fn)
+        acc, poisoned = collections.defaultdict(set), set()
+        for q, fn in M.funcs.items():
+            for n in ast.walk(fn.node):
+                if not isinstance(n, ast.Call):
+                    continue
+                name = n.func.attr if isinstance(n.func, ast.Attribute) else n.func.id if isinstance(n.func, ast.Name) else None
+                for g in by_name.get(name, []):
+                    ps = [a.arg for a in g.node.args.posonlyargs + g.node.args.args]
+                    if g.kind in ("method", "getter", "setter", "class") and isinstance(n.func, ast.Attribute) and ps:
+                        ps = ps[1:]
+                    pairs = list(zip(ps, n.args)) + [(k.arg, k.value) for k in n.keywords if k.arg in ps]
+                    for pn, a in pairs:
+                        if isinstance(a, ast.Constant) and isinstance(a.value, str):
+                            acc[(g.qname, pn)].add(a.value)
+                        else:
+                            poisoned.add((g.qname, pn))
+        self._param_consts = {k: v for k, v in acc.items() if k not in poisoned}
+        return self._param_consts
 
     def ann_type(self, a):
         M = self.m
@@ -752,6 +781,27 @@ class Infer:
             if cands:
                 self.note(e, "cha", cands)
                 return UNK
+            self.note(e, "unresolved", ast.unparse(f))
+            return UNK
+        if isinstance(f, ast.Call) and isinstance(f.func, ast.Name) and f.func.id == "getattr" and len(f.args) >= 2:
+            # getattr(obj, "name")(...) / getattr(obj, method)(...) with `method` a parameter that only ever receives
+            # string literals: a call of those methods on obj
+            ot = self.expr(f.args[0])
+            a1 = f.args[1]
+            names = None
+            if isinstance(a1, ast.Constant) and isinstance(a1.value, str):
+                names = {a1.value}
+            elif isinstance(a1, ast.Name) and a1.id in self.fn.params:
+                names = self.t.param_string_constants().get((self.fn.qname, a1.id))
+            fns = []
+            for c in self.t.classes_of(ot):
+                for nm in sorted(names or ()):
+                    fns += [x for x in M.lookup(c, nm) if x.kind != "getter"]
+            if fns:
+                self.note(e, "call", fns)
+                rts = [OVERRIDE_RET.get(x.qname, self.t.ann_type(x.node.returns)) for x in fns]
+                rts = [t for t in rts if t != UNK]
+                return rts[0] if rts else UNK
             self.note(e, "unresolved", ast.unparse(f))
             return UNK
         if isinstance(f, ast.Call):
